@@ -639,6 +639,15 @@ def RC(ts, **k): return dict({'op': 'recheck', 'targets': ts}, **k)
 
 DEF = {'algo': 0, 'method': 'copy', 'tob': 'auto'}
 CORPUS = [
+    # F31 (fixed, formerly known finding K10): a workspace symlink into the cache is not content.  (a) two paths share one object, so
+    # for one of them the object's mtime differs from the recorded one and the digest is recomputed with the configured (auto) mode
+    # instead of the recorded (binary) one: the link used to be renamed onto the new address; (b) carry-in --force on a symlinked
+    # path removed the object and renamed the dangling link onto its address; (c) explicit mode change on a symlinked path
+    ('F31-symlink-tob', DEF, [W('a.txt', b'l1\nl2\n'), W('b.txt', b'l1\nl2\n'), T(['a.txt', 'b.txt'], method='symlink', tob='binary', no_parallel=True),
+                              CI(['a.txt'], no_parallel=True), CI(['b.txt'], no_parallel=True), {'op': 'delete', 'path': 'a.txt'}, RC(['a.txt'])]),
+    ('F31-symlink-force', DEF, [W('f.bin', b'bin\x00ary'), T(['f.bin'], method='symlink'), CI(['f.bin'], force=True), {'op': 'delete', 'path': 'f.bin'}, RC(['f.bin'])]),
+    ('F31-symlink-mode-change', DEF, [W('t.txt', b'l1\nl2\n'), T(['t.txt'], method='symlink'), CI(['t.txt'], tob='binary'), CI(['t.txt'], tob='text', force=True),
+                                      {'op': 'delete', 'path': 't.txt'}, RC(['t.txt'])]),
     # F1 (fixed): recheck --force on a modified file must restore the committed bytes and keep the recorded version
     ('F1', DEF, [W('a.txt', b'v1\n'), T(['a.txt']), W('a.txt', b'edited\n'), RC(['a.txt'], force=True), {'op': 'delete', 'path': 'a.txt'}, RC(['a.txt'])]),
     # F10 (fixed): copy / move onto an untracked workspace file
@@ -677,8 +686,6 @@ KNOWN_REPLAYS = [
     # two paths share one object, so for one of them the object's mtime differs from the recorded one and the digest is
     # recomputed with the configured (auto) mode instead of the recorded (binary) one
     ('K17-same-method', DEF, [W('f.txt', b'hello\n'), T(['f.txt'], method='symlink'), W('f.txt', b'hello\n'), RC(['f.txt'], method='symlink')]),
-    ('K10-symlink-tob', DEF, [W('a.txt', b'l1\nl2\n'), W('b.txt', b'l1\nl2\n'), T(['a.txt', 'b.txt'], method='symlink', tob='binary', no_parallel=True),
-                              CI(['a.txt'], no_parallel=True), CI(['b.txt'], no_parallel=True)]),
 ]
 
 
